@@ -31,7 +31,9 @@ def describe(tier):
         "bound": "variables A, B, C with 2, 3, 2 values; "
         + "; ".join(parts)
         + "; operations: *, /, Sum, marginalize, conditional, simplify, contract, canonicalize, chain/fraction/bayes expansion and "
-        "raw Product/Fraction/Sum constructors; every ordering of A, B, C and the default ordering; every value assignment",
+        "raw Product/Fraction/Sum constructors; orderings: "
+        + ("every ordering of A, B, C and the default" if tier == "thorough" else "(A,B,C), (C,B,A) and the default")
+        + "; every value assignment",
         "rule": "state = well-scoped expression (dedup by exact structure); transition = canonicalize(e, ordering) whose value "
         "function is compared with that of e; canonical forms are grouped over the whole state space and every group must "
         "have a single value function",
@@ -68,7 +70,8 @@ def on_state(ex: Explorer, res: Res, st: State):
     case = case_of(st, {"alpha": ex.alpha})
     ok = True
     canon_default = None
-    for o in list(ORDERINGS) + [None]:
+    # y0 re-sorts any supplied ordering by name, so quick uses three representatives and thorough all seven
+    for o in (list(ORDERINGS) + [None]) if ex.full_orderings else [ORDERINGS[0], ORDERINGS[-1], None]:
         res.transitions += 1
         try:
             c = canonicalize(st.expr, o)
@@ -140,6 +143,7 @@ def work(shard, tier, seed):
     alpha, depth, lo, hi = shard
     res = Res()
     ex = Explorer(alpha, depth, seed, tier=tier)
+    ex.full_orderings = tier == "thorough"
     ex.run(res, lo, hi, on_state=on_state, on_transition=None)
     return res
 
@@ -153,10 +157,12 @@ def replay(case, clause=None):
 
         sa, sb = rebuild(case["a"]["ops"], case["a"]["alpha"]), rebuild(case["b"]["ops"], case["b"]["alpha"])
         ex = Explorer(case["a"]["alpha"], 0, int(os.environ.get("VERIF_SEED", "0") or 0), tier="thorough")
+        ex.full_orderings = True
         if canonical_expr_equal(sa.expr, sb.expr) and signature(ex, sa, ex.worlds[0]) != signature(ex, sb, ex.worlds[0]):
             res.violation("canonical_equality", case, "declared canonically equal but value functions differ")
         return list(res.violations)
     alpha = case.get("alpha", "a24")
     ex = Explorer(alpha, 0, int(os.environ.get("VERIF_SEED", "0") or 0), tier="thorough")
+    ex.full_orderings = True
     on_state(ex, res, rebuild(case["ops"], alpha))
     return list(res.violations)
